@@ -129,6 +129,12 @@ func (w *subWriter) Flush() error {
 		w.s.markRemoval(b, "flush error returned to the resolver")
 	}
 	end := e.r.Sim.Tick()
+	if !w.s.async && w.s.signalled != 0 && b < w.s.signalled && err == nil {
+		// the synchronous API returned while this flush was in flight: its return is the caller's
+		// licence to tear the writer down, so it has to wait for writes in progress (the asynchronous
+		// Unsubscribe* calls only enqueue the removal and make no such promise)
+		e.r.Fail("C12", "write-in-flight-at-completion", "flush", "s%d: completion was signalled at seq %d while writer.Flush (seq %d-%d) was still in progress (%s)", w.s.idx, w.s.signalled, b, end, w.s.removalWhy)
+	}
 	w.evs = append(w.evs, wev{"flush", b, end, payload})
 	e.r.Hist("s%d <- %s", w.s.idx, short(payload))
 	w.in = false
